@@ -38,6 +38,7 @@ func runC05(c *Ctx, r *Report) {
 	units := allBodies(c)
 	c05Atomic(c, r)
 	c05SharedTypes(c, r, units)
+	c05SnapshotEscape(c, r, units, "C05-a/snapshot-escape")
 	c05PackageMutex(c, r, units)
 	c05CapturedLocals(c, r)
 	c05AggregationLoop(c, r, units)
